@@ -825,7 +825,7 @@ func c01Gen(r *Run) {
 			emit(map[string]interface{}{"op": "reset", "graph": g})
 			n := 0
 			for _, p := range all {
-				if gi > 0 && over(0.7) {
+				if (gi > 0 || len(p.q) >= 4) && over(0.7) {
 					r.Exhaustive = false
 					break
 				}
